@@ -99,6 +99,8 @@ type built struct {
 	// nilExtra: a nil is among the appended types (supplying it up front is rejected by
 	// NewSchema, so the append-later = up-front comparison does not apply)
 	nilExtra bool
+	// invalidExtra: the appended types are themselves inconsistent (an error is a right answer)
+	invalidExtra bool
 }
 
 // build makes a fresh configuration with the given defects switched on.
@@ -421,6 +423,14 @@ func build(d map[int]bool, appendOrder int) built {
 			"ki": &graphql.Field{Type: XN}, "ko": &graphql.Field{Type: O}, "kn": &graphql.Field{Type: graphql.NewNonNull(graphql.String)}, "kq": &graphql.Field{Type: graphql.String},
 			"kx": &graphql.Field{Type: graphql.NewNonNull(O)}, "ky": &graphql.Field{Type: graphql.NewNonNull(XN)}, "kl": &graphql.Field{Type: graphql.NewNonNull(graphql.NewList(graphql.NewNonNull(graphql.String)))}}})
 		b.extra = []graphql.Type{Y2}
+	case 5:
+		// a well-formed holder object that brings in an object which declares I without
+		// implementing it (field s missing): appending must fail, or stay consistent
+		Bad := graphql.NewObject(graphql.ObjectConfig{Name: "BadImpl", Interfaces: []*graphql.Interface{I}, Fields: graphql.Fields{
+			"x": &graphql.Field{Type: graphql.String, Args: graphql.FieldConfigArgument{"p": &graphql.ArgumentConfig{Type: graphql.Int}}}}})
+		H := graphql.NewObject(graphql.ObjectConfig{Name: "Holder", Fields: graphql.Fields{"z": &graphql.Field{Type: graphql.NewList(Bad)}}})
+		b.extra = []graphql.Type{H}
+		b.invalidExtra = true
 	}
 	if on("a nil type is appended") {
 		b.extra = append(b.extra, nil)
@@ -818,7 +828,7 @@ func execute(x *explore.X) (out outcome) {
 			out.desc = append(out.desc, df.name)
 		}
 	}
-	appendOrder := x.Choose(5, "append")
+	appendOrder := x.Choose(6, "append")
 	if appendOrder > 0 {
 		out.desc = append(out.desc, fmt.Sprintf("append order %d", appendOrder))
 	}
@@ -840,7 +850,7 @@ func execute(x *explore.X) (out outcome) {
 	}
 	if err != nil {
 		// a configuration without defects must be accepted
-		anyInvalid := false
+		anyInvalid := b.invalidExtra
 		for i := range d {
 			if defects[i].invalid {
 				anyInvalid = true
@@ -860,7 +870,7 @@ func execute(x *explore.X) (out outcome) {
 		return
 	}
 	// appending later gives the same schema as supplying the types up front
-	if len(b.extra) > 0 && !b.nilExtra {
+	if len(b.extra) > 0 && !b.nilExtra && !b.invalidExtra {
 		b2 := build(d, appendOrder)
 		b2.cfg.Types = append(b2.cfg.Types, b2.extra...)
 		s2, err2 := graphql.NewSchema(b2.cfg)
@@ -877,7 +887,7 @@ func execute(x *explore.X) (out outcome) {
 
 func run(c *core.Ctx) {
 	k := c.Pick(2, 3)
-	c.R.Rule = "case = base configuration (objects, two interfaces with covariant fields, union, enum, scalar, input object, three roots) + every combination of <= k of 63 configuration defects/variants (duplicate and illegal names of every kind, empty sets, nil members / entries / types / field, argument, input-field and enum-value configurations, typed nil pointers in type positions and as a root, custom directives with nil / output-typed / untyped arguments and illegal names, a nil directive, nil and typed-nil appended types, every way of mis-implementing an interface incl. argument subtypes and list-vs-non-list, errors parked on roots and union members, NonNull of NonNull, types in wrong positions, thunks, cycles, missing root, duplicates) x 5 append histories; non-trivial = at least one defect"
+	c.R.Rule = "case = base configuration (objects, two interfaces with covariant fields, union, enum, scalar, input object, three roots) + every combination of <= k of 63 configuration defects/variants (duplicate and illegal names of every kind, empty sets, nil members / entries / types / field, argument, input-field and enum-value configurations, typed nil pointers in type positions and as a root, custom directives with nil / output-typed / untyped arguments and illegal names, a nil directive, nil and typed-nil appended types, every way of mis-implementing an interface incl. argument subtypes and list-vs-non-list, errors parked on roots and union members, NonNull of NonNull, types in wrong positions, thunks, cycles, missing root, duplicates) x 6 append histories; non-trivial = at least one defect"
 	c.R.Assumptions = []string{"M-schema: the consistency predicate of the property evaluated through TypeMap, Fields, Interfaces, Types, Values, PossibleTypes, IsPossibleType", "Go toolchain"}
 	c.R.Bounds["defects"] = k
 	e := c.Explorer(k)
